@@ -109,13 +109,16 @@ RequestFails(m) ==
 
 \* notification classes carry no method attribute: the class is found by its typeName; the method
 \* strings themselves are checked on the LSPMethods table
+\* (the class is named by the typeName, with "Notification" appended when the typeName does not end in it)
 NotificationFails(m) ==
     LET d == NotDef[m] IN
     IF "typeName" \notin DOMAIN d THEN {}
-    ELSE IF d.typeName \notin DOMAIN Rc THEN {Fail("D_notification_class", m)}
-    ELSE (IF Rc[d.typeName].direction = DirOf(m) THEN {} ELSE {Fail("D_direction", m)})
-         \cup (IF \E k \in DOMAIN Rc[d.typeName].props : Rc[d.typeName].props[k].wire = "method" THEN {}
-               ELSE {Fail("D_message_members", m)})
+    ELSE LET cands == {d.typeName, d.typeName \o "Notification"} \cap DOMAIN Rc IN
+         IF cands = {} THEN {Fail("D_notification_class", m)}
+         ELSE LET c == CHOOSE c \in cands : TRUE IN
+              (IF Rc[c].direction = DirOf(m) THEN {} ELSE {Fail("D_direction", m)})
+              \cup (IF \E k \in DOMAIN Rc[c].props : Rc[c].props[k].wire = "method" THEN {}
+                    ELSE {Fail("D_message_members", m)})
 
 MethodTable == {Img.methods[k] : k \in DOMAIN Img.methods}
 TableFails == {Fail("D_method_string_missing", m) : m \in Methods \ MethodTable}
